@@ -14,9 +14,12 @@
   * `LOp.begin_` / `LOp.end_` are the prologue and epilogue of `Thread_Init_Run`, in the order of the UNIX variant:
         pthread_setspecific; is_running = true; gc = new_raw(GC, &bottom); exc = new_raw(Exception);
         x = call_with(func, args);
-        del_raw(args); del_raw(exc); del_raw(gc);
+        del_raw(args); del_raw(gc); del_raw(exc);
     `del_raw(gc)` is `GC_Del`: `GC_Sweep` **without a mark phase** (every non-root entry is finalised), then
-    `rem(current(Thread), "__GC")`.
+    `rem(current(Thread), "__GC")`.  The order of the last two calls is read from the source (`Cfg.gcFirst`,
+    CelloGen.Thr.teardownGcFirst): before commit 7de4bbc the exception record was deleted first, and a destructor
+    that enters a `try` block during the teardown sweep found no `current(Exception)` — `get` raises KeyError, which
+    needs `current(Exception)` again: unbounded recursion, the process dies (`Out.crash`).
   * allocation: `alloc_by` → `set(current(GC), self, root)` → `GC_Set_Ptr` (a pointer already present is left alone);
     `del` → `rem(current(GC), self)` → `GC_Rem_Ptr`: looked up in the *calling* thread's registry; found → removed and
     finalised, not found → nothing happens (so `del` of another thread's object finalises nothing).
@@ -83,14 +86,15 @@ structure TS where
   exc : Option Exn.St       -- tls["__Exception"]
   tls : List (String × Obj) -- the user's keys (insertion order; a key occurs once)
   used : List Nat           -- serials this thread has used for named objects (reuse is rejected)
+  xd : List Nat             -- serials of own objects whose destructor enters a try block (try { throw } catch)
   ngarb : Nat               -- anonymous garbage objects allocated so far (serials `garbBase + i`)
   fin : List Obj            -- ledger: every object finalised by this thread's collector, in order
   pub : Nat                 -- a cell written by this thread, read by others (after join)
 deriving DecidableEq, Repr, Inhabited
 
-def TS.unborn : TS := ⟨.unborn, none, none, [], [], 0, [], 0⟩
+def TS.unborn : TS := ⟨.unborn, none, none, [], [], [], 0, [], 0⟩
 /-- the main thread after `Cello_Main`'s prologue (`new_raw(GC, &bottom)`; `Thread_Current` made `Exception_Main`) -/
-def TS.main : TS := ⟨.running, some ⟨[]⟩, some Exn.St.init, [], [], 0, [], 0⟩
+def TS.main : TS := ⟨.running, some ⟨[]⟩, some Exn.St.init, [], [], [], 0, [], 0⟩
 
 /-- serials ≥ `garbBase` are anonymous garbage (never held, never named by an op) -/
 def garbBase : Nat := 1000000
@@ -146,7 +150,7 @@ deriving DecidableEq, Repr, Inhabited
 inductive LOp where
   | begin_                                  -- prologue of Thread_Init_Run (observed by the thread function)
   | end_                                    -- the thread function returns: epilogue of Thread_Init_Run
-  | new (k : Nat) (root : Bool)             -- new / new_root of a probe object named (self, k)
+  | new (k : Nat) (root : Bool) (xdtor : Bool) -- new / new_root of a probe object named (self, k); xdtor: its destructor uses try/throw/catch
   | del (o : Obj)                           -- del(o): any object, also a foreign one
   | collect (stack : List Nat)              -- GC_Mark (TLS, roots, `stack` = own serials found on the stack); GC_Sweep
   | churn (n : Nat)                         -- n garbage allocations (never held)
@@ -163,6 +167,7 @@ deriving Repr, Inhabited
 
 inductive Out where
   | dead                                    -- the thread is not running: the event cannot happen
+  | crash                                   -- unbounded recursion in exception_throw: the process dies
   | bad                                     -- ill-formed use (serial reused, spawn of a spawned thread …)
   | ok
   | begun (depth : Nat) (gc exc : Bool)
@@ -180,6 +185,7 @@ inductive Out where
 deriving Repr, Inhabited
 
 structure Cfg where
+  gcFirst : Bool                  -- Thread_Init_Run deletes the collector before the exception record (CelloGen.Thr.teardownGcFirst)
   consume : Bool                  -- CelloGen.Exn.catchConsumes
   maxDepth : Nat                  -- CelloGen.Exn.maxDepth
   scan : Nat × Nat → Bool         -- Type_Scan(type, class) isnt NULL: the declaration
@@ -204,6 +210,16 @@ def garbage (t : Tid) (from_ n : Nat) : List Obj := (List.range n).map (fun i =>
 
 def GC.setAll (g : GC) (os : List Obj) : GC := os.foldl (fun g o => g.set o false) g
 
+/-- the destructors of the objects in `dead` run; those of `xd` objects enter a try block, throw and catch: they need
+    the thread's Exception record (`exc`).  `none` = there is no record: `current(Exception)` raises KeyError, which
+    needs `current(Exception)`: the process dies. -/
+def runDtors (xd : List Nat) (dead : List Obj) (exc : Option Exn.St) : Option (Option Exn.St) :=
+  if dead.any (fun o => xd.contains o.k) then
+    match exc with
+    | none => none
+    | some s => some (caught .valueError (some s))
+  else some exc
+
 /-- a local operation of a thread that is running (between prologue and epilogue of Thread_Init_Run) -/
 def lrun (cfg : Cfg) (t : Tid) (c : Cache) (op : LOp) (ts : TS) : TS × Cache × Out :=
   match op with
@@ -215,18 +231,24 @@ def lrun (cfg : Cfg) (t : Tid) (c : Cache) (op : LOp) (ts : TS) : TS × Cache ×
     | some g =>
       let (_, dead) := g.sweep []
       let fin := ts.fin ++ dead
-      ({ ts with phase := .done, exc := none, gc := none, fin := fin }, c, .ledger fin)
-  | .new k root =>
+      -- the record the destructors find during the teardown sweep depends on the order of the two del_raw calls
+      match runDtors ts.xd dead (if cfg.gcFirst then ts.exc else none) with
+      | none => ({ ts with phase := .done, exc := none, gc := none, fin := fin }, c, .crash)
+      | some _ => ({ ts with phase := .done, exc := none, gc := none, fin := fin }, c, .ledger fin)
+  | .new k root xdtor =>
     if ts.used.contains k || k ≥ garbBase then (ts, c, .bad) else
     match ts.gc with
     | none => (ts, c, .raised .keyError)
-    | some g => ({ ts with gc := some (g.set ⟨t, k⟩ root), used := k :: ts.used }, c, .ok)
+    | some g => ({ ts with gc := some (g.set ⟨t, k⟩ root), used := k :: ts.used,
+                           xd := if xdtor then k :: ts.xd else ts.xd }, c, .ok)
   | .del o =>
     match ts.gc with
     | none => (ts, c, .raised .keyError)
     | some g =>
       let (g', dead) := g.rem o
-      ({ ts with gc := some g', fin := ts.fin ++ dead }, c, .fin dead)
+      match runDtors ts.xd dead ts.exc with
+      | none => ({ ts with gc := some g', fin := ts.fin ++ dead }, c, .crash)
+      | some e' => ({ ts with gc := some g', fin := ts.fin ++ dead, exc := e' }, c, .fin dead)
   | .collect stack =>
     match ts.gc with
     | none => (ts, c, .raised .keyError)
@@ -234,7 +256,9 @@ def lrun (cfg : Cfg) (t : Tid) (c : Cache) (op : LOp) (ts : TS) : TS × Cache ×
       let marked := ts.tls.map (·.2) ++ stack.map (fun k => (⟨t, k⟩ : Obj))
       let (g', dead) := g.sweep marked
       let fin := ts.fin ++ dead
-      ({ ts with gc := some g', fin := fin }, c, .ledger fin)
+      match runDtors ts.xd dead ts.exc with
+      | none => ({ ts with gc := some g', fin := fin }, c, .crash)
+      | some e' => ({ ts with gc := some g', fin := fin, exc := e' }, c, .ledger fin)
   | .churn n =>
     match ts.gc with
     | none => (ts, c, .raised .keyError)
@@ -448,6 +472,7 @@ def showLedger (fin : List Obj) : String :=
 
 def Out.show : Out → String
   | .dead => "dead"
+  | .crash => "crash"
   | .bad => "bad"
   | .ok => "ok"
   | .begun d g e => s!"begun depth={d} gc={if g then 1 else 0} exc={if e then 1 else 0}"
